@@ -422,6 +422,53 @@ Fixpoint par (n k step : nat) (st : hstate) (futs : list fut) (trace : list entr
       else par n' (S k) step st futs' trace
   end.
 
+(* what is left in self._futures when the search is over: nothing after a completed search
+   (drained) or a stop (_maybe_cancel_futures pops and cancels everything); after an exception
+   escaped (a raising trial with on_trial_error='raise', a KeyError in the report) the futures
+   that were in flight stay in the list -- _maybe_cancel_futures is never reached *)
+Fixpoint drain_pending (fuel step : nat) (st : hstate) (futs : list fut) : list fut :=
+  match futs, fuel with
+  | [], _ => []
+  | _, 0 => []
+  | _, S fuel' =>
+      match pick (sched step (map fst futs)) futs with
+      | None => futs
+      | Some ((id, s), rest) =>
+          match do_report st id s step with
+          | SCrash => rest
+          | SStop _ _ => []
+          | SCont st2 _ => drain_pending fuel' (S step) st2 rest
+          end
+      end
+  end.
+
+Fixpoint par_pending (n k step : nat) (st : hstate) (futs : list fut) : list fut :=
+  match n with
+  | 0 => drain_pending (length futs) step st futs
+  | S n' =>
+      let s := get_setting k (h_optlib st) in
+      let futs' := futs ++ [(k, s)] in
+      if Nat.leb pre_dispatch (length futs') then
+        match pick (sched step (map fst futs')) futs' with
+        | None => futs'
+        | Some ((id, s'), rest) =>
+            match do_report st id s' step with
+            | SCrash => rest
+            | SStop _ _ => []
+            | SCont st2 _ => par_pending n' (S k) (S step) st2 rest
+            end
+        end
+      else par_pending n' (S k) step st futs'
+  end.
+
+(* one parallel search() on an optimizer object whose self._futures holds `leftover`:
+   _gen_results_parallel begins with `self._futures = []` (reset = true is the code; the
+   variant without the reset is kept to state why it is needed) *)
+Definition par_search (reset : bool) (leftover : list fut) (n k : nat) (st : hstate) : result :=
+  par n k 0 st (if reset then [] else leftover) [].
+Definition par_search_pending (reset : bool) (leftover : list fut) (n k : nat) (st : hstate) : list fut :=
+  par_pending n k 0 st (if reset then [] else leftover).
+
 End Search.
 
 Arguments mkH {T}. Arguments init_state {T}.
